@@ -284,13 +284,16 @@ impl Sys {
 
 const T1: &[&[&str]] = &[&["x"], &["y"], &["xy"]];
 const T2: &[&[&str]] = &[&["x", "y"], &["xy", ""], &["", "xy"]];
+// the same shapes around U+00FF (whose scalar value equals the separator byte) and NUL
+const T1B: &[&[&str]] = &[&["\u{ff}"], &["\u{ff}\u{ff}"], &["\u{ff}\0"]];
+const T2B: &[&[&str]] = &[&["a\u{ff}b", "c"], &["a", "b\u{ff}c"], &["a\u{ff}b\u{ff}c", ""]];
 
 impl Property for C10 {
     fn id(&self) -> &'static str {
         "C10"
     }
     fn rule(&self) -> &'static str {
-        "case = one IntCounterVec / CounterVec / GaugeVec with 1-2 label names and 2-3 overlapping (boundary-shifted) tuples; either \
+        "case = one IntCounterVec / CounterVec / GaugeVec with 1-2 label names and 2-3 overlapping (boundary-shifted) tuples (20%: the same shapes around U+00FF and NUL); either \
          2-3 threads x 2-5 operations under a generated schedule (walk / PCT / window), or one thread with up to 40 operations \
          (sequential history). Operations: get-or-create (slice or map form) binding a handle, inc_by(2^i) / get through a handle, \
          remove (slice or map form), reset, collect, a wrong-arity request; 1.5% of the concurrent programs run on a vector that \
@@ -323,7 +326,16 @@ impl Property for C10 {
     fn run(&self, src: &mut Src, rep: &mut Report) -> Verdict {
         let two = src.chance(100);
         let names: Vec<&'static str> = if two { vec!["a", "b"] } else { vec!["a"] };
-        let pool: Vec<Tuple> = (if two { T2 } else { T1 }).iter().map(|t| t.iter().map(|s| s.to_string()).collect()).collect();
+        let odd = src.chance(50);
+        let pool: Vec<Tuple> = (match (two, odd) {
+            (true, false) => T2,
+            (false, false) => T1,
+            (true, true) => T2B,
+            (false, true) => T1B,
+        })
+        .iter()
+        .map(|t| t.iter().map(|s| s.to_string()).collect())
+        .collect();
         let ntuples = 2 + src.below(2);
         let pool = &pool[..ntuples.min(pool.len())];
         let kind = src.below(8);
